@@ -34,4 +34,11 @@ def generate() -> list[str]:
     L.append("/-- FractionAccuracy enum values -/")
     L.append("def fractionAccuracies : List (String × Nat) := ["
              + ", ".join(f"({_lean_str(m.name)}, {int(m.value)})" for m in fa) + "]")
+    L.append("/-- constants.FormatType (dispatch of Cell._custom_format) -/")
+    L.append("def formatTypes : List (String × Nat) := ["
+             + ", ".join(f"({_lean_str(m.name)}, {int(m.value)})" for m in C.FormatType) + "]")
+    L.append(f"def customTextPlaceholder : Nat := {ord(C.CUSTOM_TEXT_PLACEHOLDER)}")
+    L.append("/-- constants.PaddingType / CellPadding -/")
+    L.append("def paddingTypes : List (String × Nat) := ["
+             + ", ".join(f"({_lean_str(m.name)}, {int(m.value)})" for m in C.PaddingType) + "]")
     return L
